@@ -64,6 +64,8 @@ class LoaderTranslator:
         self.trees = set()        # ... and every name of the same object (`visit` hands back the node it was given)
         self.dicts = {}
         self.partials = set()
+        self.hash_locals = set()     # locals bound to `self._typechecker.get_hash()`
+        self.consts = {}             # module-level string constants
         self.code = None
         self.got = None
         self.transformers = set()
@@ -102,6 +104,11 @@ class LoaderTranslator:
     PARTIAL = ("ft.partial(_optimized_cache_from_source, self._typechecker.get_hash())",
                "functools.partial(_optimized_cache_from_source, self._typechecker.get_hash())")
 
+    def _is_partial(self, x):
+        """`ft.partial(_optimized_cache_from_source, <the typechecker hash>)`, the hash written out or held by a local"""
+        return isinstance(x, ast.Call) and _u(x.func) in ("ft.partial", "functools.partial") and len(x.args) == 2 and not x.keywords \
+            and _u(x.args[0]) == "_optimized_cache_from_source" and (_u(x.args[1]) == "self._typechecker.get_hash()" or (isinstance(x.args[1], ast.Name) and x.args[1].id in self.hash_locals))
+
     def _patch_call(self, e):
         """`patch("importlib._bootstrap_external.cache_from_source", ft.partial(_optimized_cache_from_source, self._typechecker.get_hash()))`,
         written out or returned by a method of the loader that does nothing else"""
@@ -117,9 +124,11 @@ class LoaderTranslator:
             else:
                 return None
         else:
-            partial_ok = lambda x: _u(x) in self.PARTIAL or (isinstance(x, ast.Name) and x.id in self.partials)      # noqa: E731
+            partial_ok = lambda x: _u(x) in self.PARTIAL or self._is_partial(x) or (isinstance(x, ast.Name) and x.id in self.partials)      # noqa: E731
+        target = e.args[0] if isinstance(e, ast.Call) and e.args else None
+        target_text = target.value if isinstance(target, ast.Constant) else self.consts.get(target.id) if isinstance(target, ast.Name) else None
         if extract.call_name(e) == "patch" and _u(e.func) in ("patch", "mock.patch", "unittest.mock.patch") and len(e.args) == 2 and not e.keywords \
-                and isinstance(e.args[0], ast.Constant) and e.args[0].value == "importlib._bootstrap_external.cache_from_source" and partial_ok(e.args[1]):
+                and target_text == "importlib._bootstrap_external.cache_from_source" and partial_ok(e.args[1]):
             return e
         return None
 
@@ -197,8 +206,11 @@ class LoaderTranslator:
             if isinstance(st.value, ast.Dict) and all(isinstance(k, ast.Constant) and isinstance(k.value, str) for k in st.value.keys):
                 self.dicts[t] = {k.value: v for k, v in zip(st.value.keys, st.value.values)}
                 return ".skip"
-            if _u(st.value) in self.PARTIAL:
+            if _u(st.value) in self.PARTIAL or self._is_partial(st.value):
                 self.partials.add(t)
+                return ".skip"
+            if _u(st.value) == "self._typechecker.get_hash()":
+                self.hash_locals.add(t)
                 return ".skip"
             r = self._value(st.value, t)
             if r is not None:
@@ -269,6 +281,9 @@ def run():
                 notes.append(f"{name}: unexpected parameters / decorators")
                 continue
             t = LoaderTranslator(cls, own_future)
+            import extract
+
+            t.consts = {k: v.value for k, v in extract.module_constants(tree).items() if isinstance(v.value, str)}
             codes[name] = t.seq(inline_helpers(m, tree, cls).body)
             notes += [f"{name}: {n}" for n in t.notes]
         # other overridden loader methods that decide what is executed or where the bytecode lives
